@@ -139,6 +139,11 @@ class CallMixin(object):
             # abstract record: schema field
             fty = self.world.field_type(cname, attr)
             if fty is None:
+                hook = self.world.specfuncs.get('method:%s.%s' % (cname, attr))
+                if hook is not None:
+                    # a method of an abstract (external) object, given by its model
+                    yield st, mk(EngineCallable(lambda ex, st_, args, kwargs, fr_, hook=hook, obj=obj: hook(ex, st_, obj, args, kwargs, fr_)))
+                    return
                 raise OutOfReach('no schema for %s.%s' % (cname, attr))
             yield self.read_field(st, obj, attr)
             return
@@ -411,6 +416,13 @@ class CallMixin(object):
         """yields (st, SV|Raised)"""
         if not fn.is_py:
             if fn.ty.kind == 'obj' or fn.ty.kind == 'any':
+                # a callable read from data: only through the `dynamic_calls` clause of the function's contract, which
+                # names the (assumed) contract every possible callee satisfies
+                c = getattr(self, 'cur_contract', None)
+                dyn = getattr(c, 'dynamic_calls', None) or {}
+                src = ast.unparse(node.func) if node is not None else None
+                if src in dyn and not self.call_stack:
+                    return self.call_dynamic(st, dyn[src], args, kwargs, fr)
                 raise OutOfReach('call of a symbolic callable')
             raise OutOfReach('call of %r' % (fn,))
         f = fn.py
@@ -434,6 +446,43 @@ class CallMixin(object):
         if isinstance(f, _types.MethodType) or callable(f):
             return self.call_external(st, f, args, kwargs, fr)
         raise OutOfReach('call of python object %r' % (f,))
+
+    def call_dynamic(self, st, spec, args, kwargs, fr):
+        """spec = {'contract': key, 'new': ClassName | None}: apply the named contract; with 'new' the callee is a
+        constructor of some subclass of ClassName and the result is the fresh object"""
+        c = self.world.contracts[spec['contract']]
+        names = list(c.sig)
+        env = {}
+        pos = list(args)
+        obj = None
+        if spec.get('new'):
+            st, a = self.alloc_subclass(st, spec['new'])
+            obj = SV(a, ObjT(spec['new']))
+            env[names[0]] = obj
+            names = names[1:]
+        for n in names:
+            if pos:
+                env[n] = pos.pop(0)
+            elif n in kwargs:
+                env[n] = kwargs[n]
+            else:
+                env[n] = NONE_SV
+        extra = [k for k in kwargs if k not in c.sig]
+        if pos or extra:
+            raise OutOfReach('dynamic call with arguments the assumed contract does not name: %s' % (extra or 'positional'))
+        self.notes.append('dynamic call through assumed contract %s' % c.key)
+        return self.apply_contract_env(st, c, env, result_override=obj)
+
+    def alloc_subclass(self, st, cname):
+        """a fresh object whose class is some subclass of cname"""
+        st1 = st.copy()
+        a = self.H(st1, 'next')
+        st1.heap['next'] = a + 1
+        cid = fresh('dyn_cls', IntS)
+        ids = self.world.subclass_ids(cname)
+        st1.pc.append(z3.Or(*[cid == i for i in ids]))
+        st1.heap['cls'] = z3.Store(self.H(st1, 'cls'), a, cid)
+        return st1, a
 
     def call_lambda(self, st, lam, args):
         node = lam.node
